@@ -51,7 +51,7 @@ def _fn_ranges(text):
     """[(start_line, name)] for every fn in the generated file (1-based lines)."""
     out = []
     for n, line in enumerate(text.split("\n"), 1):
-        m = re.match(r"\s*(?:pub\s+)?(?:open\s+|closed\s+)?(?:spec\s+|proof\s+|exec\s+)?(?:const\s+)?fn\s+(\w+)", line)
+        m = re.match(r"\s*(?:#\[[^\]]*\]\s*)*(?:pub(?:\([^)]*\))?\s+)?(?:open\s+|closed\s+)?(?:spec\s+|proof\s+|exec\s+)?(?:const\s+)?fn\s+(\w+)", line)
         if m:
             out.append((n, m.group(1)))
     return out
